@@ -283,7 +283,10 @@ def gen_topology(rng, *, n_sites=None, max_sites=5, max_spans=3, whole_km=False,
         # per-degree targets of a policy type possibly different from the node default
         for e in els:
             if e['type'] == 'Roadm' and rng.random() < 0.6:
-                degs = [egress_degree_uid(e['uid'], t, typ) for f, t in cx if f == e['uid'] and not t.startswith('trx')]
+                # fibres that may be split by auto-design get another name: no per-degree entry for them
+                byuid = {x['uid']: x for x in els}
+                degs = [egress_degree_uid(e['uid'], t, typ) for f, t in cx if f == e['uid'] and not t.startswith('trx')
+                        and not (typ[t] == 'Fiber' and byuid[t]['params']['length'] >= 99)]
                 for d in degs:
                     r = rng.random()
                     if r < 0.25:
